@@ -40,7 +40,12 @@ type Case struct {
 	Temps  int
 	Names  int
 	NoPrep bool // temp VMs are used without an initial PrepareParse (as HotHandler creates them)
-	Ops    []Op
+	// Only, when set, names the single base-defined helper channel this history uses (all other
+	// helper channels are neither defined nor run). Every helper that resolved a name through a
+	// VM may legitimately keep that VM reachable; with all of them active at once a discarded VM
+	// is practically never collected, which hides anything that goes wrong only after collection.
+	Only string
+	Ops  []Op
 }
 
 func vmName(v int) string {
@@ -152,15 +157,24 @@ func (c Case) String() string {
 	if c.NoPrep {
 		prep = 0
 	}
-	return fmt.Sprintf("%s temps=%d names=%d prep=%d %s", c.ID, c.Temps, c.Names, prep, strings.Join(parts, ","))
+	only := ""
+	if c.Only != "" {
+		only = " only=" + c.Only
+	}
+	return fmt.Sprintf("%s temps=%d names=%d prep=%d%s %s", c.ID, c.Temps, c.Names, prep, only, strings.Join(parts, ","))
 }
 
 func parseCase(line string) (Case, error) {
 	f := strings.Fields(line)
+	only := ""
+	if len(f) == 6 && strings.HasPrefix(f[4], "only=") {
+		only = strings.TrimPrefix(f[4], "only=")
+		f = append(f[:4], f[5])
+	}
 	if len(f) != 5 {
 		return Case{}, fmt.Errorf("bad case line %q", line)
 	}
-	c := Case{ID: f[0]}
+	c := Case{ID: f[0], Only: only}
 	var err error
 	if c.Temps, err = strconv.Atoi(strings.TrimPrefix(f[1], "temps=")); err != nil || c.Temps < 1 || c.Temps > 4 {
 		return Case{}, fmt.Errorf("bad temps in %q", line)
